@@ -204,13 +204,31 @@ func main() {
 		rn := callPos(mg, body(wc), "m.fs.Rename(tmp, dst)", false)
 		direct := callPos(mg, body(wc), "m.fs.WriteFile(dst,", true)
 		tmpIsTmp := mg.HasStmt(body(wc), "tmp := filepath.Join(m.dir, manifestTempCurrentName)") && mg.HasStmt(body(wc), "dst := filepath.Join(m.dir, currentFileName)")
+		// repaired shape: open a handle on CURRENT.tmp, Write, `if m.syncWrites { Sync }`, Close, Rename
+		oh := callPos(mg, body(wc), "m.fs.OpenFileHandle(tmp, os.O_CREATE|os.O_WRONLY|os.O_TRUNC, manifestFilePermissions)", false)
+		hw := callPos(mg, body(wc), "f.Write([]byte(m.current))", false)
+		hs := callPos(mg, body(wc), "f.Sync()", false)
+		hc := callPos(mg, body(wc), "f.Close()", false)
+		syncCond := false
+		for _, c := range mg.IfWithBodyContaining(body(wc), "f.Sync()") {
+			if c == "m.syncWrites" {
+				syncCond = true
+			}
+		}
 		switch {
-		case len(wf) == 1 && len(rn) == 1 && wf[0] < rn[0] && len(direct) == 0 && tmpIsTmp:
+		case len(wf) == 1 && len(rn) == 1 && wf[0] < rn[0] && len(direct) == 0 && tmpIsTmp && len(oh) == 0 && len(hs) == 0:
 			o.Set("mf.currentViaRename", "manifest/manager.go:writeCurrent", "true", true, "")
+			o.Set("mf.currentTmpSynced", "manifest/manager.go:writeCurrent", "false", true, "")
+		case len(wf) == 0 && len(rn) == 1 && len(direct) == 0 && tmpIsTmp && len(oh) == 1 && len(hw) == 1 && len(hs) == 1 && len(hc) >= 1 &&
+			oh[0] < hw[0] && hw[0] < hs[0] && hs[0] < hc[len(hc)-1] && hc[len(hc)-1] < rn[0] && syncCond:
+			o.Set("mf.currentViaRename", "manifest/manager.go:writeCurrent", "true", true, "")
+			o.Set("mf.currentTmpSynced", "manifest/manager.go:writeCurrent", "true", true, "")
 		case len(rn) == 0 && len(direct) == 1:
 			o.Set("mf.currentViaRename", "manifest/manager.go:writeCurrent", "false", true, "")
+			o.Set("mf.currentTmpSynced", "manifest/manager.go:writeCurrent", "false", true, "")
 		default:
 			o.Set("mf.currentViaRename", "manifest/manager.go:writeCurrent", "", false, "true")
+			o.Set("mf.currentTmpSynced", "manifest/manager.go:writeCurrent", "", false, "false")
 		}
 	}
 
@@ -328,14 +346,14 @@ open NoKV NoKV.Manifest
 def mCfg : MCfg :=
   { snapInvalidAsUpdate := %s, vlogDelZeroesOffset := %s, headForcesValid := %s, delFileFirstOnly := %s,
     nilRaftRoundtrip := %s, nilRegionRoundtrip := %s,
-    currentAfterSnapshot := %s, removeOldAfterCurrent := %s, currentViaRename := %s,
+    currentAfterSnapshot := %s, removeOldAfterCurrent := %s, currentViaRename := %s, currentTmpSynced := %s,
     syncOnAppend := %s, rewriteAtGE := %s,
     verifyTruncPartLen := %s, verifyTruncLenOnly := %s, verifyTruncPartPayload := %s, openVerifies := %s }
 
 end NoKV.Generated.Manifest
 `, f["mf.snapInvalidAsUpdate"], f["mf.vlogDelZeroesOffset"], f["mf.headForcesValid"], f["mf.delFileFirstOnly"],
 		f["mf.nilRaftRoundtrip"], f["mf.nilRegionRoundtrip"],
-		f["mf.currentAfterSnapshot"], f["mf.removeOldAfterCurrent"], f["mf.currentViaRename"],
+		f["mf.currentAfterSnapshot"], f["mf.removeOldAfterCurrent"], f["mf.currentViaRename"], f["mf.currentTmpSynced"],
 		f["mf.syncOnAppend"], f["mf.rewriteAtGE"],
 		f["mf.verifyTruncPartLen"], f["mf.verifyTruncLenOnly"], f["mf.verifyTruncPartPayload"], f["mf.openVerifies"])
 	o.Write(*jsonOut, *leanOut, lean)
